@@ -379,7 +379,7 @@ def load_patterns(filename):
     # Current occurrence, containing (onset, midi)
     occurrence = []
     with _open(filename, mode="r") as input_file:
-        for line in input_file.readlines():
+        for row, line in enumerate(input_file.readlines(), 1):
             if "pattern" in line:
                 if occurrence != []:
                     pattern.append(occurrence)
@@ -394,7 +394,13 @@ def load_patterns(filename):
                 occurrence = []
                 continue
             string_values = line.split(",")
-            onset_midi = (float(string_values[0]), float(string_values[1]))
+            try:
+                onset_midi = (float(string_values[0]), float(string_values[1]))
+            except (IndexError, ValueError) as exe:
+                raise ValueError(
+                    "Couldn't convert line to an (onset, midi) pair "
+                    "at {}:{:d}:\n\t{}".format(filename, row, line)
+                ) from exe
             occurrence.append(onset_midi)
 
         # Add last occurrence and pattern to pattern_list
